@@ -12,7 +12,7 @@ ID = "C08"
 LEVEL = "model_checking"
 LEVEL_TEXT = ("Explicit enumeration of every nesting tree with <=4 items (thorough <=5) and depth <=3 over 10 leaf kinds (define label / "
               "`=` / `:=` for names a,b; reference a,b; qualified reference s.a, s.b, t.a) and 5 containers (block, .scope s, .scope t, "
-              "macro application, 2-iteration loop), plus all trees with 5 items (thorough 6) over a reduced alphabet; each rendered "
+              "macro application, 2-iteration loop), plus all trees with 5 items (thorough 6) over a reduced alphabet and over an 'early evaluation' alphabet (width-inferred `lda a`, `u = a + 1`); each rendered "
               "and assembled by the real assembler and compared with an independent lexical-environment model (bytes of every "
               "reference, rejection of out-of-scope references, label list). Metamorphic relations on every accepted tree: swapping "
               "the names a<->b consistently, and adding an unrelated label inside each scope, leave the output unchanged. "
@@ -28,6 +28,10 @@ ASSUMPTIONS = ["environment model in mc/ref/asm.py", "duplicate definitions in o
 N = rx.num
 S = rx.sym
 LEAVES_FULL = [("dl", "a"), ("dl", "b"), ("de", "a"), ("de", "b"), ("dc", "a"), ("r", "a"), ("r", "b"), ("q", "s.a"), ("q", "s.b"), ("q", "t.a")]
+# early-evaluation family (third alphabet): the name is also evaluated before emission - by the label pass (width-inferred
+# `lda a`) or by the symbol pass (`u = a + 1`) - which must not change what later references resolve to
+LEAVES_EARLY = [("dl", "a"), ("de", "a"), ("r", "a"), ("ri", "a"), ("re", "a"), ("q", "s.a")]
+CONT_EARLY = ["B", "Ss"]
 CONT_FULL = ["B", "Ss", "St", "M", "F"]
 LEAVES_RED = [("dl", "a"), ("dl", "b"), ("de", "a"), ("r", "a"), ("r", "b"), ("q", "s.a")]
 CONT_RED = ["B", "Ss", "M"]
@@ -36,8 +40,8 @@ ORG = 0x018000
 
 def bound(tier):
     if tier == "thorough":
-        return "all trees with <=5 items over 10 leaves + 5 containers, depth <=3; all trees with 6 items over 6 leaves + 3 containers"
-    return "all trees with <=4 items over 10 leaves + 5 containers, depth <=3; all trees with 5 items over 6 leaves + 3 containers"
+        return "all trees with <=5 items over 10 leaves + 5 containers, depth <=3; all trees with 6 items over 6 leaves + 3 containers; all trees with <=6 items over the 6+2 early-evaluation alphabet"
+    return "all trees with <=4 items over 10 leaves + 5 containers, depth <=3; all trees with 5 items over 6 leaves + 3 containers; all trees with <=5 items over the 6+2 early-evaluation alphabet"
 
 
 def seqs(n, d, leaves, conts):
@@ -73,6 +77,9 @@ def cases(tier, seed):
     for fi in range(len(LEAVES_RED) + len(CONT_RED)):
         for fj in range(len(LEAVES_RED) + len(CONT_RED) + 1):
             yield ("trees", "red", red_n, fi, fj, False)
+    for n in range(1, red_n + 1):
+        for fi in range(len(LEAVES_EARLY) + len(CONT_EARLY)):
+            yield ("trees", "early", n, fi, None, False)
 
 
 def describe(case, res):
@@ -85,7 +92,7 @@ def describe(case, res):
 def trees_for(alpha, n, fi, fj):
     """Trees of cost n whose first item is item #fi of the alphabet (and, if fj is given, whose second top-level
     item is #fj, with fj == len(alphabet) meaning 'there is no second top-level item')."""
-    leaves, conts = (LEAVES_FULL, CONT_FULL) if alpha == "full" else (LEAVES_RED, CONT_RED)
+    leaves, conts = {"full": (LEAVES_FULL, CONT_FULL), "red": (LEAVES_RED, CONT_RED), "early": (LEAVES_EARLY, CONT_EARLY)}[alpha]
     nl = len(leaves)
 
     def first_item(n, d, idx):
@@ -141,6 +148,11 @@ def to_program(tree, swap=False, extra_in=None):
                 out.append(("const", nm(it[1]), N(0x2200 + pos)))
             elif k in ("r", "q"):
                 out.append(("data", "dw", [S(nm(it[1]))]))
+            elif k == "ri":
+                out.append(("ins", "lda", "", ("", "", ""), S(nm(it[1]))))
+            elif k == "re":
+                out.append(("eq", f"u{pos}", ("b", "+", S(nm(it[1])), N(1))))
+                out.append(("data", "dw", [S(f"u{pos}")]))
             else:
                 scope_idx[0] += 1
                 idx = scope_idx[0]
